@@ -209,6 +209,106 @@ func ruleC17_2(c *Ctx, r *Rep) {
 			r.Check("C17.2", "C17.2:mask:"+p+"@"+sp.h, u.Pos, strings.Join(cols, ",") == strings.Join(want, ","), "mask path "+p+" → {"+strings.Join(want, ",")+"}",
 				"update-mask path `"+p+"` modifies {"+strings.Join(cols, ",")+"} but names {"+strings.Join(want, ",")+"}: the update changes a field its mask does not name, or misses one it does")
 		}
+		// every column a mask path names is written (set or cleared) on EVERY path through that path's case:
+		// a member that is only written when present keeps its stale value when it is absent from the request
+		cl0 := u.Terms[0].Call.Parent()
+		es := c.EntShape()
+		mutCol := func(in ssa.Instruction, col string) bool {
+			call, ok := in.(*ssa.Call)
+			if !ok {
+				return false
+			}
+			cal := call.Call.StaticCallee()
+			if cal == nil {
+				return false
+			}
+			if cal.Signature.Recv() != nil && fnPkgPath(cal) == entPkg {
+				if ent, _, isB := builderType(cal.Signature.Recv().Type()); isB {
+					if cc, _, ok2 := es.columnOfSetter(ent, cal.Name()); ok2 && cc == col {
+						return true
+					}
+				}
+			}
+			return false
+		}
+		var allPaths func(f *ssa.Function, start *ssa.BasicBlock, stop map[*ssa.BasicBlock]bool, col string, depth int) bool
+		isMutOrHelper := func(in ssa.Instruction, col string, depth int) bool {
+			if mutCol(in, col) {
+				return true
+			}
+			if call, ok := in.(*ssa.Call); ok && depth < 2 {
+				if cal := call.Call.StaticCallee(); cal != nil && c.inModule(cal) && len(cal.Blocks) > 0 && !es.isGenerated(cal) {
+					// a helper that writes the column on all of its paths
+					return allPaths(cal, cal.Blocks[0], nil, col, depth+1)
+				}
+			}
+			return false
+		}
+		allPaths = func(f *ssa.Function, start *ssa.BasicBlock, stop map[*ssa.BasicBlock]bool, col string, depth int) bool {
+			seen := map[*ssa.BasicBlock]bool{}
+			ok := true
+			var walk func(b *ssa.BasicBlock)
+			walk = func(b *ssa.BasicBlock) {
+				if seen[b] || !ok {
+					return
+				}
+				seen[b] = true
+				for _, in := range b.Instrs {
+					if isMutOrHelper(in, col, depth) {
+						return
+					}
+					if ret, isRet := in.(*ssa.Return); isRet {
+						if len(ret.Results) > 0 && isErrorType(ret.Results[len(ret.Results)-1].Type()) && !returnsNilError(ret) {
+							return // rejected request
+						}
+						ok = false
+						return
+					}
+				}
+				if stop[b] {
+					ok = false
+					return
+				}
+				for _, s2 := range b.Succs {
+					if stop[s2] {
+						ok = false
+						return
+					}
+					walk(s2)
+				}
+			}
+			walk(start)
+			return ok
+		}
+		for p, cols := range sp.want {
+			// entry of the case: true successor of `p == "<path>"`
+			var entry *ssa.BasicBlock
+			var hdr *ssa.BasicBlock
+			for _, b := range cl0.Blocks {
+				if len(b.Instrs) == 0 {
+					continue
+				}
+				iff, isIf := b.Instrs[len(b.Instrs)-1].(*ssa.If)
+				if !isIf {
+					continue
+				}
+				if bo, isB := iff.Cond.(*ssa.BinOp); isB && bo.Op == token.EQL && sources(bo.X)["call:GetPaths"] {
+					if s2, isS := constString(bo.Y); isS && s2 == p {
+						entry = b.Succs[0]
+						if l := innermostLoop(loopsOf(cl0), b); l != nil {
+							hdr = l.Header
+						}
+					}
+				}
+			}
+			if entry == nil || hdr == nil {
+				continue // reported by the table comparison above
+			}
+			for _, col := range cols {
+				r.Check("C17.2", "C17.2:writes-on-every-path:"+p+"."+col+"@"+sp.h, entry.Instrs[0].Pos(), allPaths(cl0, entry, map[*ssa.BasicBlock]bool{hdr: true}, col, 0),
+					"mask path "+p+" writes "+col+" on every path", "under mask path `"+p+"` the column "+col+" is not written (set or cleared) on every path: when that member is absent from the request its old value survives, although the mask names it")
+			}
+		}
 		// the no-op shortcut may skip the save only when nothing was set, cleared or added
 		kinds := map[string]bool{}
 		for _, m := range u.Muts {
@@ -309,6 +409,27 @@ func ruleC17_3(c *Ctx, r *Rep) {
 			}
 		}
 	}
+	// the codec never represents a duration as a floating-point number (53 bits of mantissa < 63 bits of nanoseconds)
+	nf := 0
+	for _, f := range c.Funcs {
+		if c.PkgOf(f) != "internal/sqltypes" {
+			continue
+		}
+		for _, ci := range callsIn(f, false, func(cal *ssa.Function, _ ssa.CallInstruction) bool {
+			p, nm := fnPkgPath(cal), cal.Name()
+			if p == "strconv" && (nm == "FormatFloat" || nm == "ParseFloat" || nm == "AppendFloat") {
+				return true
+			}
+			if p == "time" && cal.Signature.Recv() != nil && (nm == "Seconds" || nm == "Minutes" || nm == "Hours") {
+				return true
+			}
+			return false
+		}) {
+			nf++
+			r.Fail("C17.3", fmt.Sprintf("C17.3:float-duration#%d@%s", nf, c.Key(f)), ci.Pos(), "the stored-duration codec represents a duration (or its digits) as a float64 ("+ci.Common().StaticCallee().Name()+"): float64 has 53 bits of mantissa, so long durations with nanosecond detail do not survive storage exactly")
+		}
+	}
+	r.OK("C17.3", "C17.3:no-float-representation", 0, "no Duration.Seconds/Minutes/Hours, FormatFloat or ParseFloat in the codec")
 	if c.Fn("internal/sqltypes.ParsePostgreSQLInterval") == nil {
 		r.Fail("C17.3", "anchor:internal/sqltypes.ParsePostgreSQLInterval", 0, "codec entry point not found")
 	}
